@@ -112,7 +112,8 @@ def _recipe_case(ai):
         return [], None
     outcome = 'returned' if obs['ok'] else 'raised'
     vs = []
-    if e1.exact_world(world) != fp or tuple(e1.exact_obj(s) for s in subs.values()) != fps:
+    if e1.exact_world(world) != fp or tuple(e1.exact_obj(s) for s in subs.values()) != fps or \
+            any(e1.exact_obj(o) != f0 for f0, o in obs.get('passed', ())):
         vs.append(V(f"Recipe | argument-mutated | op={act['op']},outcome={outcome}",
                     f"declaring, adding the step {e1.act_str(act)} and baking ({outcome}) modified an object handed to the "
                     f"recipe", case))
